@@ -22,6 +22,9 @@ def case(jn, jd, n, pat):
 
 def corpus():
     return [
+        case(20, 1, 300, [3000000000]),                 # C13l: more than 2^31 per tick is still carried exactly
+        case(50, 1, 300, [5000000000, 0, 2147483648]),
+        case(1, 2, 200, [2147483647, 2147483649]),
         case(50, 1, 4000, [1000, 0]),            # over-emission followed by a zero rate: the debt must be kept
         case(20, 1, 5000, [3]),
         case(30, 1, 20000, [3]),                  # rounding error must stay in the carry
